@@ -335,16 +335,14 @@ def _carve(lo: Fr, hi: Fr, el: Fr, eu: Fr) -> list[tuple[Fr, Fr]]:
 
 
 def _nearest(ivs: list[tuple[Fr, Fr]], x: Fr) -> set[Fr]:
-    best: tuple[Fr, set[Fr]] | None = None
+    """Admissible points nearest to x; candidates whose distances differ by less than float noise tie."""
+    cands = []
     for a, b in ivs:
         c = min(max(x, a), b)
-        d = abs(c - x)
-        if best is None or d < best[0]:
-            best = (d, {c})
-        elif d == best[0]:
-            best[1].add(c)
-    assert best is not None
-    return best[1]
+        cands.append((abs(c - x), c))
+    dmin = min(d for d, _ in cands)
+    slack = Fr(1, 10**9) * max(Fr(1), abs(x), dmin)
+    return {c for d, c in cands if d - dmin <= slack}
 
 
 def _reference(sysb: dict[str, float], props: list[dict[str, Any]]) -> tuple[set[Fr] | None, dict[str, bool]]:
